@@ -109,10 +109,17 @@ Definition world0 (nthreads : nat) : world := mk_w [] [root] [] (repeat stack0 n
    [cf_script] says that the sampler IS the scripted one *)
 Record cfg := mk_cfg {
   cf_enabled : bool; cf_random : bool; cf_script : bool;
-  cf_samp : sresult -> span_ctx -> bytes -> sresult
+  cf_samp : sresult -> span_ctx -> bytes -> sresult;
+  cf_defgen : bool     (* the ids come from the SDK's default RandomIdGenerator (sdk/src/trace/random_id_generator.cc over
+                          sdk/src/common/random.cc): the harness renames every id it hands out to the id written in the
+                          operation, first come first served; a zero id is not renamed *)
 }.
+(* a custom (scripted) id generator *)
 Definition cfg_of (enabled random : bool) (s : csampler) : cfg :=
-  mk_cfg enabled random (match s with CScript => true | _ => false end) (csample s).
+  mk_cfg enabled random (match s with CScript => true | _ => false end) (csample s) false.
+(* the default RandomIdGenerator (IsRandom() = true) *)
+Definition cfg_of_default (enabled : bool) (s : csampler) : cfg :=
+  mk_cfg enabled true (match s with CScript => true | _ => false end) (csample s) true.
 
 Definition stk_of (w : world) (t : nat) : stack := nth t (w_stks w) stack0.
 (* the calling thread's view as a C10 thread world *)
